@@ -13,6 +13,9 @@ mod service;
 mod signals;
 mod socket;
 mod test_server;
+#[cfg(actix_net_verif)]
+#[doc(hidden)]
+pub mod verif;
 mod waker_queue;
 mod worker;
 
